@@ -5,9 +5,12 @@ Oracle: vf.refs.ws_ref (RFC 6455 section 5.2 written independently).
  (b) parse(build()+tail) yields the same fields and payload and returns exactly `tail`
  (c) any byte string that ws_ref decodes as frame+tail is parsed identically by WebsocketFrame.parse
  (d) key_to_accept == b64(sha1(key+GUID))
+ (e) the codec as the built-in web server runs it: after a real upgrade on a harness-K connection the client sends a
+     drawn stream of 1..6 frames (masked and unmasked mixed, 1..3 whole frames per segment); the frames handed to the
+     route's on_websocket_message equal the frames sent, in order, and the route's echoes decode with the reference
 """
 import itertools
-from typing import Any, Dict, List
+from typing import Any, Dict, List, Tuple
 
 from hypothesis import strategies as st
 
@@ -19,7 +22,8 @@ LEVEL = 'exploration'
 ALL_EXHAUSTIVE = False
 RULE = ('grid: all 2^4 FIN/RSV x 16 opcodes x {unmasked, 3 keys} x payload lengths {0..130, 65530..65540} '
         '(x 2 tails) enumerated completely; sampled: Hypothesis-drawn flags/opcode/key/payload (lengths up to 2^20 quick, '
-        '2^23 thorough)/tail, plus raw byte strings accepted by the reference decoder; handshake keys. '
+        '2^23 thorough)/tail, plus raw byte strings accepted by the reference decoder; handshake keys; frame streams of 1..6 '
+        'frames through the web server\'s websocket route. '
         'A case is non-trivial when payload length >= 126 or it is masked or an RSV bit is set; '
         'distinct = distinct (bits, opcode, key, length, payload hash, tail).')
 EXPLANATION = ('Sub-spaces enumerated completely are listed in exhaustive_subspaces; the sampled part is not exhaustive.')
@@ -110,12 +114,127 @@ def check_key(c: Dict[str, Any]) -> List[Any]:
     return []
 
 
+# -- the codec as the built-in web server uses it: a stream of frames on one upgraded connection -------------------
+
+_SRV: Dict[str, Any] = {'log': []}
+
+
+def _ws_flags() -> Any:
+    import os
+    if _SRV.get('pid') != os.getpid():
+        from vf.harness import k as K
+        from proxy.http.server import HttpWebServerBasePlugin, httpProtocolTypes
+
+        class VfWsRoute(HttpWebServerBasePlugin):
+            """Records every frame the server hands to the route and echoes its payload as an unmasked binary frame."""
+
+            def routes(self) -> List[Tuple[int, str]]:
+                return [(httpProtocolTypes.WEBSOCKET, r'/vfws$')]
+
+            def handle_request(self, request: Any) -> None:     # abstract in the base class; never reached for this route
+                raise AssertionError('websocket route asked to handle a plain request')
+
+            def on_websocket_message(self, frame: Any) -> None:
+                _SRV['log'].append({'fin': frame.fin, 'rsv1': frame.rsv1, 'rsv2': frame.rsv2, 'rsv3': frame.rsv3, 'opcode': frame.opcode,
+                                    'masked': frame.masked, 'payload': bytes(frame.data or b'')})
+                from proxy.http.websocket.frame import WebsocketFrame
+                out = WebsocketFrame()
+                out.fin, out.opcode, out.data = True, 2, bytes(frame.data or b'')
+                self.client.queue(memoryview(out.build()))
+        _SRV.update(pid=os.getpid(), flags=K.make_flags(['--threadless', '--enable-web-server'], plugins=[VfWsRoute]))
+    return _SRV['flags']
+
+
+def check_stream(c: Dict[str, Any]) -> List[Any]:
+    """frames: list of {bits, opcode (never 8), key, n, salt}; groups: how many whole frames travel in each segment."""
+    from vf.harness import k as K
+    K.install()
+    flags = _ws_flags()
+    del _SRV['log'][:]
+    frames = []
+    for f in c['frames']:
+        b = f['bits']
+        frames.append({'fin': bool(b & 8), 'rsv1': bool(b & 4), 'rsv2': bool(b & 2), 'rsv3': bool(b & 1), 'opcode': f['opcode'],
+                       'masked': f['key'] is not None, 'payload': _payload(f['n'], f.get('salt', 0)), 'key': f['key']})
+    wire = [ws_ref.encode(f['fin'], f['rsv1'], f['rsv2'], f['rsv3'], f['opcode'], f['key'], f['payload']) for f in frames]
+    hs = (b'GET /vfws HTTP/1.1\r\nHost: localhost\r\nUpgrade: websocket\r\nConnection: Upgrade\r\n'
+          b'Sec-WebSocket-Key: dGhlIHNhbXBsZSBub25jZQ==\r\nSec-WebSocket-Version: 13\r\n\r\n')
+    segs: List[bytes] = []
+    i = 0
+    gi = 0
+    while i < len(wire):
+        g = max(1, c['groups'][gi % len(c['groups'])]) if c.get('groups') else 1
+        segs.append(b''.join(wire[i:i + g]))
+        i += g
+        gi += 1
+    script: List[List[Any]] = [['send', len(hs)], ['read', 100]]
+    for sg in segs:
+        script += [['send', len(sg)], ['idle'], ['idle']]
+    w = K.World(flags, max_iters=20000)
+    client = K.Peer('client', out=hs + b''.join(segs), script=script)
+    w.add_client(client)
+    w.order = ['client']
+    w.run_local()
+    feat = {'mixed_masking': len({f['masked'] for f in frames}) == 2,
+            'several_per_segment': any(g > 1 for g in (c.get('groups') or [1]))}
+    out: List[Any] = []
+    try:
+        if w.budget_exhausted:
+            return out
+        if w.worker_died:
+            return [('worker-died', feat, w.exceptions[:1], None)]
+        got = bytes(client.inbuf)
+        head, sep, rest = got.partition(b'\r\n\r\n')
+        if not head.startswith(b'HTTP/1.1 101') or not sep:
+            return [('no-upgrade', feat, got[:120], '101 Switching Protocols')]
+        if ws_ref.accept(b'dGhlIHNhbXBsZSBub25jZQ==') not in head:
+            out.append(('accept-token', feat, head[:200], ws_ref.accept(b'dGhlIHNhbXBsZSBub25jZQ==')))
+        want = [{k_: f[k_] for k_ in ('fin', 'rsv1', 'rsv2', 'rsv3', 'opcode', 'masked', 'payload')} for f in frames]
+        log = list(_SRV['log'])
+        if len(log) != len(want):
+            out.append(('server-frame-count', feat, len(log), len(want)))
+        for j, (g_, w_) in enumerate(zip(log, want)):
+            if g_ != w_:
+                diff = sorted(k_ for k_ in w_ if g_[k_] != w_[k_])
+                out.append(('server-frame-differs', dict(feat, fields=diff, after_masked=bool(j and want[j - 1]['masked']), masked=w_['masked']),
+                            {'index': j, 'got': {k_: (g_[k_][:32] if k_ == 'payload' else g_[k_]) for k_ in diff}},
+                            {k_: (w_[k_][:32] if k_ == 'payload' else w_[k_]) for k_ in diff}))
+                break
+        # the echoes the route built with the same codec: decode with the reference
+        echoed = []
+        while rest:
+            d = ws_ref.decode(rest)
+            if d is None:
+                out.append(('echo-stream-truncated', feat, rest[:40], None))
+                break
+            echoed.append(d[0]['payload'])
+            rest = d[1]
+        if not out and echoed != [f['payload'] for f in frames]:
+            out.append(('echo-differs', feat, [e[:16] for e in echoed][:6], [f['payload'][:16] for f in frames][:6]))
+        return out
+    finally:
+        w.teardown()
+
+
+def _stream_strategy() -> Any:
+    frame = st.fixed_dictionaries({
+        'bits': st.sampled_from([8, 8, 8, 0, 12, 9, 15]),
+        'opcode': st.sampled_from([0, 1, 1, 2, 2, 9, 10, 3, 11, 15]),
+        'key': st.one_of(st.none(), st.binary(min_size=4, max_size=4)),
+        'n': st.one_of(st.integers(0, 130), st.sampled_from([125, 126, 127, 4096, 20000])),
+        'salt': st.integers(0, 255)})
+    return st.fixed_dictionaries({'stream': st.just(True), 'frames': st.lists(frame, min_size=1, max_size=6),
+                                  'groups': st.lists(st.integers(1, 3), min_size=1, max_size=4)})
+
+
 def _nontrivial(c: Dict[str, Any]) -> bool:
     n = len(c['payload']) if 'payload' in c else c.get('n', 0)
     return n >= 126 or c.get('key') is not None or bool(c.get('bits', 0) & 7)
 
 
 def _dispatch(c: Dict[str, Any]) -> List[Any]:
+    if 'stream' in c:
+        return check_stream(c)
     if 'raw' in c:
         return check_raw(c)
     if 'wskey' in c:
@@ -140,6 +259,8 @@ def shards(tier: str) -> List[Dict[str, Any]]:
         out.append({'name': 'sampled-%02d' % i, 'kind': 'sampled', 'max_len': big, 'examples': n})
     for i in range(2 if tier == 'quick' else 8):
         out.append({'name': 'rawbytes-%02d' % i, 'kind': 'raw', 'examples': 3000 if tier == 'quick' else 40000})
+    for i in range(2 if tier == 'quick' else 6):
+        out.append({'name': 'server-stream-%02d' % i, 'kind': 'stream', 'examples': 400 if tier == 'quick' else 8000})
     out.append({'name': 'handshake', 'kind': 'key', 'examples': 2000 if tier == 'quick' else 50000})
     if tier != 'quick':
         for t_ in ('raw', 'sampled'):
@@ -213,6 +334,15 @@ def run_shard(spec: Dict[str, Any], seed: int, acc: Any) -> None:
                      labels=('raw:decodable' if d else 'raw:incomplete',))
             return check_raw(c)
         hyp.drive(_raw_strategy(), chk2, acc, max_examples=spec['examples'], seed=seed)
+        return
+    if kind == 'stream':
+        def chk4(c: Dict[str, Any]) -> List[Any]:
+            fr = c['frames']
+            mixed = len({f['key'] is not None for f in fr}) == 2
+            acc.case(c, len(fr) >= 2 and (mixed or any(f['n'] >= 126 for f in fr)),
+                     labels=('server-stream', 'frames:%d' % len(fr)) + (('mixed-masking',) if mixed else ()))
+            return check_stream(c)
+        hyp.drive(_stream_strategy(), chk4, acc, max_examples=spec['examples'], seed=seed)
         return
     if kind == 'key':
         def chk3(c: Dict[str, Any]) -> List[Any]:
